@@ -274,6 +274,8 @@ def pools():
                # a conflict with a task that is not the most recently added one; a resource task that matches no table
                # two tasks of the next stage both started early (disjoint filters)
                ["wA,wB", "wA/f=nB", "wB/f=nA"],
+               # a harmless early-started task between the running stage and a conflicting candidate
+               ["wB", "wA,rB", "wC", "rB"],
                ["wA", "rB", "wA"], ["-/r=wR0", "rA", "-/r=wR0"], ["rC/r=wR0", "wA", "wB/r=wR0"], ["rC/r=rR0", "wA", "wC/r=wR0", "rB"]]
     P["PC"] = [
         ["wC", "rA", "wA"], ["wB,rC", "rA", "wA,wC"], ["wC/f=hA", "wC/f=nA", "rC"], ["wB", "wC", "rA", "wA"],
